@@ -6,6 +6,7 @@ import (
 	"sort"
 	"strconv"
 	"strings"
+	"time"
 )
 
 const (
@@ -47,12 +48,29 @@ type entry struct {
 type store struct {
 	keys    map[string]*entry
 	nextSeq uint64 // last sequence number handed out; first key gets 1
+	// expire holds the time-to-live of keys (EXPIRE / PEXPIRE / PERSIST); purge applies it before every command
+	expire map[string]time.Time
 }
 
-func newStore() *store { return &store{keys: map[string]*entry{}} }
+func newStore() *store { return &store{keys: map[string]*entry{}, expire: map[string]time.Time{}} }
+
+// purge removes the keys whose time to live has run out and forgets the time to live of keys that are gone.
+func (st *store) purge(now time.Time) {
+	for k, t := range st.expire {
+		if _, ok := st.keys[k]; !ok {
+			delete(st.expire, k)
+		} else if !now.Before(t) {
+			delete(st.keys, k)
+			delete(st.expire, k)
+		}
+	}
+}
 
 func (st *store) clone() *store {
-	c := &store{keys: make(map[string]*entry, len(st.keys)), nextSeq: st.nextSeq}
+	c := &store{keys: make(map[string]*entry, len(st.keys)), nextSeq: st.nextSeq, expire: make(map[string]time.Time, len(st.expire))}
+	for k, t := range st.expire {
+		c.expire[k] = t
+	}
 	for k, e := range st.keys {
 		ne := &entry{seq: e.seq, kind: e.kind}
 		switch e.kind {
@@ -221,6 +239,10 @@ func init() {
 		"FLUSHDB":  {-1, true, cmdFlush},
 		"TYPE":     {2, false, cmdType},
 		"DBSIZE":   {1, false, cmdDBSize},
+		"EXPIRE":   {3, true, cmdExpire},
+		"PEXPIRE":  {3, true, cmdPExpire},
+		"PERSIST":  {2, true, cmdPersist},
+		"TTL":      {2, false, cmdTTL},
 	}
 }
 
@@ -633,6 +655,7 @@ func cmdFlush(st *store, a [][]byte, _ *options) (interface{}, error) {
 		}
 	}
 	st.keys = map[string]*entry{}
+	st.expire = map[string]time.Time{}
 	return "OK", nil
 }
 
@@ -645,4 +668,57 @@ func cmdType(st *store, a [][]byte, _ *options) (interface{}, error) {
 
 func cmdDBSize(st *store, _ [][]byte, _ *options) (interface{}, error) {
 	return int64(len(st.keys)), nil
+}
+
+func expireIn(st *store, a [][]byte, unit time.Duration) (interface{}, error) {
+	n, err := parseInt(a[1])
+	if err != nil {
+		return nil, err
+	}
+	k := string(a[0])
+	if _, ok := st.keys[k]; !ok {
+		return int64(0), nil
+	}
+	if n <= 0 {
+		delete(st.keys, k)
+		delete(st.expire, k)
+		return int64(1), nil
+	}
+	if st.expire == nil {
+		st.expire = map[string]time.Time{}
+	}
+	st.expire[k] = time.Now().Add(time.Duration(n) * unit)
+	return int64(1), nil
+}
+
+func cmdExpire(st *store, a [][]byte, _ *options) (interface{}, error) {
+	return expireIn(st, a, time.Second)
+}
+
+func cmdPExpire(st *store, a [][]byte, _ *options) (interface{}, error) {
+	return expireIn(st, a, time.Millisecond)
+}
+
+func cmdPersist(st *store, a [][]byte, _ *options) (interface{}, error) {
+	k := string(a[0])
+	if _, ok := st.keys[k]; !ok {
+		return int64(0), nil
+	}
+	if _, ok := st.expire[k]; !ok {
+		return int64(0), nil
+	}
+	delete(st.expire, k)
+	return int64(1), nil
+}
+
+func cmdTTL(st *store, a [][]byte, _ *options) (interface{}, error) {
+	k := string(a[0])
+	if _, ok := st.keys[k]; !ok {
+		return int64(-2), nil
+	}
+	t, ok := st.expire[k]
+	if !ok {
+		return int64(-1), nil
+	}
+	return int64((time.Until(t) + time.Second - 1) / time.Second), nil
 }
